@@ -765,6 +765,26 @@ pub fn purity<const N: usize, H: HandN<N>>(run: &mut Run, clause: &'static str, 
         let a = unrank::<N>(52, idx);
         let b = neighbour(&a, k1, p1);
         let c = neighbour(&b, k2, p2);
+        if p1 % 3 == 0 {
+            // a longer history over a pool of up to six related hands, with immediate repeats
+            // (A B C D A A ...): multi-entry memories, most-recently-used lists
+            let d = neighbour(&c, (k1 + k2) % NEIGHBOUR_KINDS, p1 ^ p2);
+            let e = unrank::<N>(52, (idx ^ p2) % choose(52, N as u64));
+            let f = neighbour(&a, k2, p2.rotate_left(9));
+            let pool = [a, b, c, d, e, f];
+            let size = 3 + (p2 % 4) as usize; // 3..6 hands in play
+            let len = 6 + (p1 >> 8) % 9; // 6..14 calls
+            let mut s = crate::engine::SplitMix(p1 ^ p2.rotate_left(17));
+            let mut seq: Vec<[u8; N]> = pool[..size].to_vec(); // first every hand once, in order
+            let mut last = size - 1;
+            for _ in 0..len {
+                let r = s.next();
+                let i = if r % 4 == 0 { last } else { (r >> 8) as usize % size };
+                seq.push(pool[i]);
+                last = i;
+            }
+            return seq;
+        }
         vec![a, b, a, c, b, a]
     };
     // one shard: the point is back-to-back calls on one thread
@@ -776,7 +796,7 @@ pub fn purity<const N: usize, H: HandN<N>>(run: &mut Run, clause: &'static str, 
             e
         })
     });
-    st.flush(run, &format!("{}-card call sequences over neighbour hands (A B A C B A)", N), "proptest (histories)", None, "neighbours: suits relabelled, one card replaced, a rank group moved to an absent rank, all ranks rotated, two slots swapped, two same-suited cards moved to another suit, two cards trading suits; every call compared with the model");
+    st.flush(run, &format!("{}-card call sequences over neighbour hands (A B A C B A; one third: 9..20 calls over a pool of 3..6 hands)", N), "proptest (histories)", None, "neighbours: suits relabelled, one card replaced, a rank group moved to an absent rank, all ranks rotated, two slots swapped, two same-suited cards moved to another suit, two cards trading suits; every call compared with the model");
     if let Err(f) = res {
         let seq = build(f.value);
         // shortest failing prefix, then drop calls that are not needed
@@ -801,6 +821,111 @@ pub fn purity<const N: usize, H: HandN<N>>(run: &mut Run, clause: &'static str, 
         let hands: Vec<Value> = cur.iter().map(|h| hand_json(&words_of_ci(h))).collect();
         let sig = cur.iter().map(|h| card::render_hand(&words_of_ci(h))).collect::<Vec<_>>().join(" ; ");
         return run.violation(clause, &sig, json!({"size": N, "sequence": hands}), &m);
+    }
+    Ok(())
+}
+
+/// Call chains across hand sizes: a seven-card hand in a given slot order ranked k times, then its
+/// six-card sub-hands (slot order kept) k times each, then five-card sub-hands — or the other way
+/// round. Every call is compared with the model (value; in Witness mode also the reported hand).
+pub fn chains(run: &mut Run, clause: &'static str, mode: Mode) -> PResult {
+    use proptest::prelude::*;
+    let t = poker::tables();
+    let total = choose(52, 7);
+    let cases: u32 = if run.tier == Tier::Thorough { 600_000 } else { 60_000 };
+    let st = engine::RStats::new();
+    // (subset, slot order, repetitions, direction, which slots to drop)
+    let strat = (0..total, 0u64..5040, 1usize..=3, any::<bool>(), 0usize..7, 0usize..6);
+    let build = |(idx, pi, _k, _down, d1, d2): (u64, u64, usize, bool, usize, usize)| -> (Vec<u8>, Vec<u8>, Vec<u8>) {
+        let c = unrank::<7>(52, idx);
+        let p = perm_from_index::<7>(pi);
+        let seven: Vec<u8> = p.iter().map(|i| c[*i as usize]).collect();
+        let mut six = seven.clone();
+        six.remove(d1);
+        let mut five = six.clone();
+        five.remove(d2);
+        (seven, six, five)
+    };
+    let one = |h: &[u8]| -> Result<(), String> {
+        let w: Vec<u32> = h.iter().map(|c| card::BY_CI[*c as usize]).collect();
+        let exp = poker::best_direct(t, h);
+        let got: Result<(u16, [u32; 5]), String> = match h.len() {
+            5 => guard(|| H5::value_and_hand(arr::<5>(&w).unwrap())),
+            6 => guard(|| H6::value_and_hand(arr::<6>(&w).unwrap())),
+            _ => guard(|| H7::value_and_hand(arr::<7>(&w).unwrap())),
+        };
+        let plain: Result<u16, String> = match h.len() {
+            5 => guard(|| H5::hrv(arr::<5>(&w).unwrap())),
+            6 => guard(|| H6::hrv(arr::<6>(&w).unwrap())),
+            _ => guard(|| H7::hrv(arr::<7>(&w).unwrap())),
+        };
+        let (v, wit) = got.map_err(|m| format!("ranking [{}] panicked: {}", card::render_hand(&w), m))?;
+        if v != exp || plain != Ok(exp) {
+            return Err(format!("[{}] ranked {} / {:?} (with hand / value only), the best five-card hand it contains has ordinal {}", card::render_hand(&w), v, plain, exp));
+        }
+        if mode == Mode::Witness {
+            if h.len() == 5 {
+                if wit[..] != w[..] {
+                    return Err(format!("[{}] reported the hand [{}], not the input unchanged", card::render_hand(&w), card::render_hand(&wit)));
+                }
+            } else {
+                witness_check(t, &w, v, &wit).map_err(|e| format!("[{}] reported ({}, {}): {}", card::render_hand(&w), v, card::render_hand(&wit), e))?;
+            }
+        }
+        Ok(())
+    };
+    let seq_of = |v: &(u64, u64, usize, bool, usize, usize)| -> Vec<Vec<u8>> {
+        let (seven, six, five) = build(*v);
+        let order: Vec<Vec<u8>> = if v.3 { vec![seven, six, five] } else { vec![five, six, seven] };
+        let mut seq = Vec::new();
+        for h in order {
+            for _ in 0..v.2 {
+                seq.push(h.clone());
+            }
+        }
+        seq
+    };
+    let seq_check = |seq: &[Vec<u8>]| -> Result<(), String> {
+        one(&[51u8, 47, 43, 39, 35, 0, 5])?; // warm-up
+        for (i, h) in seq.iter().enumerate() {
+            one(h).map_err(|m| format!("call {} of a chain across hand sizes: {}", i + 1, m))?;
+        }
+        Ok(())
+    };
+    let res = pt::run(run.seed, 0xC4A1 + mode as u64, cases, &strat, |v| {
+        let seq = seq_of(&v);
+        st.note(mix2(v.0 * 5040 + v.1, (v.2 as u64) << 8 | (v.3 as u64) << 7 | (v.4 as u64) << 3 | v.5 as u64), true, Some(if v.3 { "seven -> six -> five" } else { "five -> six -> seven" }), || {
+            json!({"chain": seq.iter().map(|h| card::render_hand(&h.iter().map(|c| card::BY_CI[*c as usize]).collect::<Vec<_>>())).collect::<Vec<_>>()})
+        });
+        seq_check(&seq).map_err(|e| {
+            st.freeze();
+            e
+        })
+    });
+    st.flush(run, "call chains across hand sizes (a seven-card hand, its six- and five-card sub-hands, each 1..3 times, either direction)", "proptest (histories)", None, "slot order kept when a card is dropped; every call compared with the model");
+    if let Err(f) = res {
+        let seq = seq_of(&f.value);
+        let mut cur = seq.clone();
+        for n in 1..=seq.len() {
+            if seq_check(&seq[..n]).is_err() {
+                cur = seq[..n].to_vec();
+                break;
+            }
+        }
+        let mut i = 0;
+        while cur.len() > 1 && i + 1 < cur.len() {
+            let mut cand = cur.clone();
+            cand.remove(i);
+            if seq_check(&cand).is_err() {
+                cur = cand;
+            } else {
+                i += 1;
+            }
+        }
+        let m = seq_check(&cur).err().unwrap_or_else(|| "not reproducible".into());
+        let hands: Vec<Value> = cur.iter().map(|h| hand_json(&h.iter().map(|c| card::BY_CI[*c as usize]).collect::<Vec<_>>())).collect();
+        let sig = cur.iter().map(|h| card::render_hand(&h.iter().map(|c| card::BY_CI[*c as usize]).collect::<Vec<_>>())).collect::<Vec<_>>().join(" ; ");
+        return run.violation(clause, &sig, json!({"sequence": hands}), &m);
     }
     Ok(())
 }
@@ -855,6 +980,7 @@ pub fn run_c02(run: &mut Run) -> PResult {
         // make every later enumeration result depend on scheduling)
         purity::<6, H6>(run, "C02.sequence", Mode::Value)?;
         purity::<7, H7>(run, "C02.sequence", Mode::Value)?;
+        chains(run, "C02.sequence", Mode::Value)?;
     }
     scan::<6, H6>(run, Mode::Value, &ScanCfg { stratum: 1, orders: if thorough { 4 } else { 1 } })?;
     scan::<7, H7>(run, Mode::Value, &ScanCfg { stratum: if thorough { 1 } else if twin { 32 } else { 8 }, orders: if thorough { 4 } else { 1 } })?;
@@ -874,36 +1000,49 @@ pub fn run_c02(run: &mut Run) -> PResult {
     Ok(())
 }
 
-/// replay of a saved call sequence (all hands of one size)
+/// replay of a saved call sequence (hands of any of the three sizes, in the saved order)
 pub fn check_sequence_case(case: &Value, mode: Mode) -> Result<(), String> {
-    let mut seq5: Vec<[u8; 5]> = Vec::new();
-    let mut seq6: Vec<[u8; 6]> = Vec::new();
-    let mut seq7: Vec<[u8; 7]> = Vec::new();
-    for h in case["sequence"].as_array().ok_or("sequence")? {
+    // warm-up as in the generators
+    sequence_check::<7, H7>(&[], mode)?;
+    for (i, h) in case["sequence"].as_array().ok_or("sequence")?.iter().enumerate() {
         let ws = engine::parse_words(&h["words"])?;
         let cis = cis_of(&ws)?;
-        match cis.len() {
-            5 => seq5.push(core::array::from_fn(|i| cis[i])),
-            6 => seq6.push(core::array::from_fn(|i| cis[i])),
-            7 => seq7.push(core::array::from_fn(|i| cis[i])),
+        let r = match cis.len() {
+            5 => sequence_step::<5, H5>(core::array::from_fn(|i| cis[i]), mode),
+            6 => sequence_step::<6, H6>(core::array::from_fn(|i| cis[i]), mode),
+            7 => sequence_step::<7, H7>(core::array::from_fn(|i| cis[i]), mode),
             n => return Err(format!("size {}", n)),
+        };
+        r.map_err(|m| format!("call {}: {}", i + 1, m))?;
+    }
+    Ok(())
+}
+
+/// one call of a replayed sequence, without the warm-up
+fn sequence_step<const N: usize, H: HandN<N>>(c: [u8; N], mode: Mode) -> Result<(), String> {
+    let t = poker::tables();
+    let exp = poker::best_direct(t, &c);
+    let w = words_of_ci(&c);
+    let (v, wit) = guard(|| H::value_and_hand(w))?;
+    let plain = guard(|| H::hrv(w))?;
+    if v != exp || plain != exp {
+        return Err(format!("[{}] ranked {} / {} (with hand / value only), the best five-card hand it contains has ordinal {}", card::render_hand(&w), v, plain, exp));
+    }
+    if mode == Mode::Witness {
+        if N == 5 {
+            if wit[..] != w[..] {
+                return Err(format!("[{}] reported the hand [{}], not the input unchanged", card::render_hand(&w), card::render_hand(&wit)));
+            }
+        } else {
+            witness_check(t, &w, v, &wit).map_err(|e| format!("[{}] reported ({}, {}): {}", card::render_hand(&w), v, card::render_hand(&wit), e))?;
         }
-    }
-    if !seq5.is_empty() {
-        sequence_check::<5, H5>(&seq5, mode)?;
-    }
-    if !seq6.is_empty() {
-        sequence_check::<6, H6>(&seq6, mode)?;
-    }
-    if !seq7.is_empty() {
-        sequence_check::<7, H7>(&seq7, mode)?;
     }
     Ok(())
 }
 
 pub fn check_case_c02(clause: &str, case: &Value) -> Result<(), String> {
     let t = poker::tables();
-    if clause.ends_with(".after_disturbance") {
+    if clause.ends_with(".after_disturbance") || clause.ends_with(".concurrent") || clause.ends_with(".concurrent_cold_start") {
         return replay_after_disturbance(case, check_case_c02);
     }
     if clause == "C02.sequence" {
@@ -973,6 +1112,7 @@ pub fn run_c03(run: &mut Run) -> PResult {
         purity::<5, H5>(run, "C03.sequence", Mode::Witness)?;
         purity::<6, H6>(run, "C03.sequence", Mode::Witness)?;
         purity::<7, H7>(run, "C03.sequence", Mode::Witness)?;
+        chains(run, "C03.sequence", Mode::Witness)?;
     }
     // identity clause
     let perms = perms5();
@@ -1024,7 +1164,7 @@ pub fn run_c03(run: &mut Run) -> PResult {
 }
 
 pub fn check_case_c03(clause: &str, case: &Value) -> Result<(), String> {
-    if clause.ends_with(".after_disturbance") {
+    if clause.ends_with(".after_disturbance") || clause.ends_with(".concurrent") || clause.ends_with(".concurrent_cold_start") {
         return replay_after_disturbance(case, check_case_c03);
     }
     if clause == "C03.sequence" {
@@ -1158,6 +1298,7 @@ pub fn run_c09(run: &mut Run) -> PResult {
         // the relation is between values of different calls: those values must not depend on call order
         purity::<6, H6>(run, "C09.sequence", Mode::Value)?;
         purity::<7, H7>(run, "C09.sequence", Mode::Value)?;
+        chains(run, "C09.sequence", Mode::Value)?;
     }
     let binom = binom_table();
     let seed = run.seed;
@@ -1271,7 +1412,7 @@ pub fn run_c09(run: &mut Run) -> PResult {
 }
 
 pub fn check_case_c09(clause: &str, case: &Value) -> Result<(), String> {
-    if clause.ends_with(".after_disturbance") {
+    if clause.ends_with(".after_disturbance") || clause.ends_with(".concurrent") || clause.ends_with(".concurrent_cold_start") {
         return replay_after_disturbance(case, check_case_c09);
     }
     if clause == "C09.sequence" {
